@@ -60,7 +60,23 @@ CONTEXTS = [
     "function f(a,b,o,k,r,q,x,y,z,i,arr){ return (%s).length + 1; }",
     "function f(a,b,o,k,r,q,x,y,z,i,arr){ o[%s] += %s; }",
     "function f(a,b,o,k,r,q,x,y,z,i,arr){ for (x in %s) {} for (;;) { if (%s) break; } }",
+    # expression-bodied arrow functions whose body is not itself the operation
+    "const pick = (k) => table[%s];",
+    "const pick = (k) => this.a.b[%s];",
+    "function f(a,b,o,k,r,q,x,y,z,i,arr){ return arr.map((e) => o[%s].value); }",
+    "class A { h = (k) => (o[%s]); static g = (k) => q(%s); }",
+    "const pick = (a,b,o,k) => ({ v: %s });",
+    "const pick = (a,b,o,k) => [%s, %s];",
+    "const pick = (a,b,o,k) => k ? %s : o;",
+    "const pick = (a,b,o,k) => (b) => q(%s);",
+    "function f(a,b,o,k,r,q,x,y,z,i,arr){ return f2(%s) + ((%s).length > 1 ? 'L' : 'S'); }",
+    "function f(a,b,o,k,r,q,x,y,z,i,arr){ return `${f2()}${(%s) ? %s : y}`; }",
 ]
+
+# an operation is not always a whole statement / operand: it also sits inside other expressions
+WRAPPERS = ["o[%s]", "o.p[%s].value", "(%s).length", "q(%s)", "q(1, %s)", "[%s]", "({ k: %s }).k", "c ? %s : z", "%s ? 'L' : 'S'", "!(%s)",
+            "typeof (%s)", "(x, %s)", "(o[%s])", "new F(%s)", "-(%s)", "(%s) === x", "(%s) in o", "[...%s]", "o?.[%s]", "void (%s)",
+            "f2() + ((%s).length > 1 ? 'L' : 'S')", "((%s).length > 1 ? a : b) + f2()", "y = %s", "(%s) || z", "z ?? (%s)"]
 
 
 def operations(rng, reserved=None):
@@ -89,6 +105,13 @@ def operations(rng, reserved=None):
         lambda: "%s[%s](%s)" % (par(rng.choice(RECEIVERS[:6])), rng.choice(["'trim'", "k", "`trim`"]), rng.choice(ARG_LISTS)),
         lambda: "%s.trim(%s).concat(%s).%s()" % (par(rng.choice(RECEIVERS)), rng.choice(ARG_LISTS[:3]), rng.choice(ARG_LISTS), rng.choice(METHODS[:7])),
         lambda: "%s" % o(),
+        # the same identifier read more than once around an operand that may change it
+        lambda: "`${a}-${%s}-${a}`" % o(),
+        lambda: "`${x}:${x = y}:${x}${i}${i++}${i}`",
+        lambda: "a.concat(b, %s, b)" % o(),
+        lambda: "a.concat(a, %s, a)" % o(),
+        lambda: "x + %s + x" % par(o()),
+        lambda: "a.replace(a, a)",
     ]
     return forms
 
@@ -101,6 +124,8 @@ def program(seed, i, reserved=None):
     exprs = []
     for _ in range(n):
         e = rng.choice(forms)()
+        if rng.random() < 0.3:
+            e = rng.choice(WRAPPERS) % e
         exprs.append(e)
     code = ctx % tuple(exprs)
     # constructs that are only valid in some contexts
